@@ -12,7 +12,7 @@ ANCHORS = ['make_linked_list', 'parse_linked_list', 'link_front', 'recreate_vari
 WITNESSES = {'all': ['constructor', 'constructor-splice', 'constructor-tail', 'renamed', 'parsed', 'append-result', 'filter-result', 'chained-bound-tails', 'list-valued-last', 'empty-list-last']}
 OPTS = {'quick': {'selfcheck_mod': 25, 'budget_s': 280}, 'thorough': {'selfcheck_mod': 200, 'budget_s': 2400}}
 BOUNDS = {
-    'quick': 'element sequences of length 0-3 over {a, symbolic i64, 1.5, $V1, $_, f(a), [b], [[c] | $V2]-free nested [b, c], []} and of length 4-5 over {a, [b], [], $V1}, with and without a tail variable; 6 sequences with atoms outside ASCII (é, ü, Δ, 日本) and a tail variable named $Ñu; '
+    'quick': 'element sequences of length 0-3 over {a, symbolic i64, 1.5, $V1, $_, f(a), [b], [[c] | $V2]-free nested [b, c], []} and of length 4-5 over {a, [b], [], $V1}, with and without a tail variable; 6 sequences with atoms outside ASCII (é, ü, Δ, 日本) and a tail variable named $Ñu, and `$_` as the tail (constructor and renaming); '
              'for each: make_linked_list (vbar false/true; a list-valued last term is the documented splice), recreate_variables, parse_linked_list of the canonical text, '
              'append(L, Out), include($_, L, Out), the latter two also with L given in three pieces joined by two bound tail variables; every result must be well formed (node chain ending in the empty node, count = remaining elements, tail_var only last) and hold '
              'exactly the expected elements; it is also unified with the reference list in both orders',
@@ -55,9 +55,10 @@ def cases(tier, seed):
     # atoms and a tail variable whose names are outside ASCII (2- and 3-byte characters)
     na = [[['q', 'é']], [['q', 'é'], ['q', 'ü']], [['a'], ['q', '日本']], [['l', 'p', [['q', 'é']], None], ['b']], [['q', 'Δ'], ['i'], ['q', 'é']], [['a'], ['b']]]
     for s in na:
-        for tailname in (None, '$V3', '$Ñu'):
+        for tailname in (None, '$V3', '$Ñu', '$_'):
             for fam in ('mk', 'recreate', 'parse', 'append'):
                 if tailname and fam == 'append': continue
+                if tailname == '$_' and fam == 'parse': continue      # (the parser does not take `| $_`; the constructor does)
                 out.append({'id': '%s [%s%s]' % (fam, ', '.join(U.text(x) for x in s), ' | ' + tailname if tailname else ''), 'fam': fam, 'elems': s, 'tail': bool(tailname), 'tailname': tailname})
     return out
 
@@ -120,7 +121,7 @@ def run(drv, case):
     elems = [U.inst(m, e, 'e%d' % i) for i, e in enumerate(case['elems'])]
     tail = U.inst(m, TAIL, 't') if case['tail'] else None
     tailname = case.get('tailname') or '$V3'
-    if tail is not None: tail = ('var', tail[1], tailname)
+    if tail is not None: tail = ('var', tail[1], tailname) if tailname != '$_' else ('anon',)
     ael = [build_pterm(e) for e in elems]
     fam = case['fam']
     desc = case['id']
